@@ -21,6 +21,9 @@ def harnesses(tier, seed):
         for variant in variants:
             if variant == "codec" and "fieldonly" in s.tags:
                 continue
+            fs = [t for t in s.tags if t.startswith("fmtself:")]
+            if fs and variant not in ("codec", "field", fs[0].split(":")[1]):
+                continue
             try:
                 hs.append(gen.value_harness("C02", "c02", s, variant, "Bounds(maxlen=%d, chain_wrap=True)" % maxlen,
                                             setup_kwargs="has_any=%r" % ("any" in s.tags)))
